@@ -326,7 +326,8 @@ def replay(case):
 
 def run(ctx):
     from mc.core import run_lattice
-    from mc.refmodels import hansen
+    from mc.refmodels import hansen, poolwatch
+    watch = poolwatch.start(ctx)
     hansen.ensure_cache(mapper=lambda fn, jobs: ctx.map(fn, jobs, chunk=1))
     es = list(E_MENU[ctx.seed % len(E_MENU)])
     disc = run_lattice(ctx, 'mc.props.C08:run_case', [dict(kind='discover')],
@@ -347,6 +348,7 @@ def run(ctx):
     res2 = run_lattice(ctx, 'mc.props.C08:run_case', cases2, chunk=1,
                        rule='every lookup[N][max_l] (compiled) vs the per-l tables key by key; distinct = distinct lookup results',
                        exhaustive=True)
+    watch.set()
     cases, res = cases1 + cases2, res1 + res2
     import os
     if os.environ.get('VERIF_TIMING'):
